@@ -65,7 +65,7 @@ def lit_src(t, src, names):
     if t[0] == 'a':
         return atom_src(t[1], src)
     if t[0] == 'i':
-        return str(t[1])
+        return ('0' * src.n(3) if src is not None and src.n(4) == 3 else '') + str(t[1])     # any numeral spelling
     if t[1] == '.' and len(t[2]) == 2:
         items = []
         cur = t
@@ -137,7 +137,7 @@ class C16(Prop):
     technique = 'round-trip property-based testing (Hypothesis): literal AST -> source text -> compiler -> engine term -> reification / to_python, and API-built terms vs. compiled literals'
     rule = ('a literal term AST (atoms unquoted or quoted with generated backslash-free Unicode text: letters, digits, '
             'blanks, newlines and other line separators, NUL, quote written backslash-quote, double quote, punctuation, '
-            'non-BMP; integers up to 10^30; compounds nested <= 4 with arbitrary functor names; proper lists; [H|T] '
+            'non-BMP; integers up to 10^30, also spelled with leading zeros; compounds nested <= 4 with arbitrary functor names; proper lists; [H|T] '
             'patterns; _) is printed to source and placed in fact, head-with-body, body (X = LIT) and query position. '
             'Round trip: the reification of X after p(X) equals the AST (up to renaming of variables; each _ distinct); '
             'to_python(X) equals the specified image (atom -> name, int -> int, proper list -> list, [] -> [], compound '
@@ -186,7 +186,7 @@ class C16(Prop):
         detail = {'text': text, 'literal': show(t) if len(repr(t)) < 400 else repr(t)[:400]}
         comp = C.compile_case(text)
         if comp[0] == 'exc':
-            if 'GeneratedCodeError' in comp[1]:
+            if 'GeneratedCodeError' in comp[1] and term_depth(t) > 30:
                 return DISCARD('too deeply nested for Python (compiler says so)')
             return FAIL(comp[1], dict(detail, error=comp[2]))
         exp = canon(t)
